@@ -551,7 +551,7 @@ def run_shard(spec, emit):
             emit.viol("C10/malformed-link-expression-accepted", f"link with parameter expression `{expr}` was constructed without error", {"expr": expr})
     # Part 2
     n_runs = 1 if tier == "quick" else 20
-    deadline = time.monotonic() + (60 if tier == "quick" else 2000)
+    deadline = time.monotonic() + (60 if tier == "quick" else 300)
     for i in range(n_runs):
         if time.monotonic() > deadline:
             break
